@@ -14,9 +14,11 @@ claimed = {
  "C09": ("proof", "gate postconditions of NewMnemonicByEntropy / NewMnemonic over exact 64-bit arithmetic, sentinel facts from init", "4 C09"),
  "C10": ("proof", "two-call ghost client verifSameVerdict over CheckMnemonic's contract (a function of nfkd(m))", "4 C10"),
  "C11": ("proof", "two-call ghost client verifSameSeed over MnemonicToSeed's contract", "4 C11"),
+ "C12": ("proof", "ownership/frame discipline obligations over the SSA of every function (writers, no-escape, reads dominated by Once.Do, one Once per variable, subset gate) plus all frame obligations; proves a sufficient discipline for all schedules under the assumed sync.Once contract and Go memory model - schedules are NOT explored", "4 C12"),
  "C13": ("proof", "frame (assigns) obligations on every function, global invariants preserved, history ghost clients verifHistory* with an arbitrary intervening API call", "4 C13"),
  "C14": ("proof", "safety obligations at every instruction of every function reachable from the API (bounds, nil, division, make, callee preconditions) and loop variants", "4 C14"),
  "C15": ("proof", "refined postconditions F1-F3 of CheckMnemonic incl. message content of the unknown-word error", "4 C15"),
+ "C17": ("other", "mixed: glue contract of updateWordlist and the langs table are proved (deductive); the output of html/template.Execute is checked by a BOUNDED run of the real tool (200 files quick / 5000 thorough) and is never counted as proved", "4 C17"),
  "C16": ("proof", "postcondition of Language.String against the constant block read by go/types; native SMT strings", "4 C16"),
 }
 try:
